@@ -143,7 +143,8 @@ CLAIMED = {
         "(each once), carries the writer's key as clock id, has a time strictly greater than every entry of the log, becomes the single "
         "head; its skip references are entries of the log (all of which lie in its causal past), disjoint from next, duplicate free, "
         "at most log2(pointer count)+2; an append that returned is reachable from every later successful append on that log "
-        "(C04_appends_form_a_chain). Tied by field-by-field comparison of every appended entry with the model and direct monitors, "
+        "(C04_appends_form_a_chain); on re-opened logs, whose clock lags behind their entries, and on everything merged from them the "
+        "new entry still names exactly the heads and is newer than everything held (C04_append_on_reopened_log). Tied by field-by-field comparison of every appended entry with the model and direct monitors, "
         "incl. wide unbalanced forks with more heads than pointers, logs with seeded clocks around 2^53 and 2^62 and logs reloaded "
         "under each ordering; the concurrent half is C13.",
    technique="Coq proof (log invariant, traversal subset and power-of-two loop bound) + differential correspondence vs Go", design="6/C04"),
@@ -173,9 +174,14 @@ CLAIMED = {
         "and a bound >= total keeps everything, and its reverse next index forgets the dropped entries. For EVERY history whose "
         "joins carry any bounds (pwf: only hash-consistent appends are required) every replica satisfies the partial-log invariant: "
         "heads = exactly the unreferenced entries (non-empty when the log is), exact next index, clock >= entries, Values() complete, "
-        "duplicate free, sorted and causal, and no merge with any bound panics. Tie: bounded joins with bounds 0..total+3 in random "
+        "duplicate free, sorted and causal, and no merge with any bound panics. The same (C16_reopened_*, Proofs/POpen.v) for every "
+        "history in which replicas are also RE-OPENED over arbitrary selections of another replica's entries (NewLog with "
+        "LogOptions.Entries: what the loaders do after a complete or limited load), with 'nothing is newer than the newest head' in "
+        "place of the clock clause (such a log's clock starts at 0), including the main clause between any two replicas. "
+        "Tie: bounded joins with bounds 0..total+3 in random "
         "histories compared with the model and with an oracle that replays the history with the unbounded join; every history is "
-        "checked against pwf; a truncated replica and a fresh log made from its entries must merge identically (twin probe); "
+        "checked against pwf / owf; histories open replicas over full, newest-n and random selections (also under a foreign log id) "
+        "and append to and merge them; a truncated replica and a fresh log made from its entries must merge identically (twin probe); "
         "bounded merges into gap-loaded logs. Known finding K3: the early return for self/foreign-id joins skips the trimming. "
         "Found and repaired: stale next index after truncation (27edacc).",
    technique="Coq proof (bounded join over the values specification; fuel sufficiency) + replay-oracle correspondence vs Go", design="6/C16"),
